@@ -147,7 +147,7 @@ func New(cli client.Client, opt Options) (*Pipeline, error) {
 		MaxOldConfigFiles:        0,
 		RateLimitUpdate:          100,
 		ReloadInterval:           opt.ReloadInterval,
-		ReloadRetry:              time.Second,
+		ReloadRetry:              40 * time.Millisecond,
 		ReloadStrategy:           "reusesocket",
 		RootContext:              ctx,
 		Scheme:                   Scheme(),
@@ -167,6 +167,10 @@ func New(cli client.Client, opt Options) (*Pipeline, error) {
 		return nil, err
 	}
 	p := &Pipeline{Ctx: ctx, Cancel: cancel, Opt: opt, Cfg: cfg, Client: cli, Svc: svc, Pending: map[bool]int{}}
+	if q := svc.VerifReloadQueue(); q != nil {
+		// the manager would start the reload queue
+		go func() { _ = q.Start(ctx) }()
+	}
 	p.W = reconciler.NewVerifWatchers(ctx, cfg, svc.GetIsValidResource(), func(full bool) { p.Pending[full]++ })
 	return p, nil
 }
@@ -280,6 +284,14 @@ func (p *Pipeline) Reconcile(fullsync bool) (*convtypes.ChangedObjects, error) {
 // ReconcilePending runs one reconciliation per pending queue item kind; fullFirst picks the order.
 // With nothing pending it runs nothing. Returns the first error.
 func (p *Pipeline) ReconcilePending(fullFirst bool) (n int, err error) {
+	n, failed, err := p.ReconcilePendingKinds(fullFirst)
+	_ = failed
+	return n, err
+}
+
+// ReconcilePendingKinds is ReconcilePending and also returns the kinds (fullsync flag) whose reconciliation failed:
+// those are the items the controller requeues after --reload-retry.
+func (p *Pipeline) ReconcilePendingKinds(fullFirst bool) (n int, failed []bool, err error) {
 	order := []bool{false, true}
 	if fullFirst {
 		order = []bool{true, false}
@@ -287,12 +299,15 @@ func (p *Pipeline) ReconcilePending(fullFirst bool) (n int, err error) {
 	for _, k := range order {
 		if p.Pending[k] > 0 {
 			n++
-			if _, e := p.Reconcile(k); e != nil && err == nil {
-				err = e
+			if _, e := p.Reconcile(k); e != nil {
+				failed = append(failed, k)
+				if err == nil {
+					err = e
+				}
 			}
 		}
 	}
-	return n, err
+	return n, failed, err
 }
 
 var listKinds = []func() client.ObjectList{
